@@ -756,7 +756,9 @@ func (s *TreeShapeListener) EnterTable_def(ctx *parser.Table_defContext) {
 			}
 		}
 	}
-	if ctx.WHATEVER() != nil {
+	if ctx.WHATEVER() != nil && len(attributesForType(type1)) == 0 {
+		// `!type Foo: ...` says nothing about the fields: it leaves a type without any as a placeholder,
+		// and does not take away what another declaration of the type has said
 		type1.Type = nil
 	}
 }
@@ -781,24 +783,25 @@ func (s *TreeShapeListener) EnterTable(ctx *parser.TableContext) {
 		default:
 		}
 	}
-	if ctx.TABLE() != nil {
-		if _, exists := types[s.currentTypePath.Get()]; !exists {
-			types[s.currentTypePath.Get()] = &sysl.Type{
-				Type: &sysl.Type_Relation_{
-					Relation: &sysl.Type_Relation{
-						AttrDefs: s.typemap,
-					},
+	// a type declared so far only as a placeholder (`!type Foo: ...`) has no field map yet: it gets
+	// one now, and keeps its attributes and the locations of the earlier declarations
+	existing, exists := types[s.currentTypePath.Get()]
+	if !exists {
+		existing = &sysl.Type{}
+		types[s.currentTypePath.Get()] = existing
+	}
+	if existing.Type == nil {
+		if ctx.TABLE() != nil {
+			existing.Type = &sysl.Type_Relation_{
+				Relation: &sysl.Type_Relation{
+					AttrDefs: s.typemap,
 				},
 			}
 		}
-	}
-	if ctx.TYPE() != nil {
-		if _, exists := types[s.currentTypePath.Get()]; !exists {
-			types[s.currentTypePath.Get()] = &sysl.Type{
-				Type: &sysl.Type_Tuple_{
-					Tuple: &sysl.Type_Tuple{
-						AttrDefs: s.typemap,
-					},
+		if ctx.TYPE() != nil {
+			existing.Type = &sysl.Type_Tuple_{
+				Tuple: &sysl.Type_Tuple{
+					AttrDefs: s.typemap,
 				},
 			}
 		}
